@@ -1,6 +1,7 @@
 """C04 — only ConvertError escapes a conversion of interchange data; unsupported types fail up front."""
 import collections
 import collections.abc
+import dataclasses
 import enum
 import io
 import json
@@ -70,6 +71,14 @@ class _Plain:
     pass
 
 
+_NewInt = t.NewType('_NewInt', int)
+
+
+@dataclasses.dataclass
+class _StdDC:
+    a: int = 0
+
+
 def unsupported_types(rng):
     """(description, python type) pairs from the unsupported grammar."""
     from pane.annotations import Tagged
@@ -80,9 +89,16 @@ def unsupported_types(rng):
         ('Annotated[int, "doc"]', t.Annotated[int, "doc"]), ('Annotated[int, 5]', t.Annotated[int, 5]),
         ('Pattern[int]', re.Pattern[int]), ('Tagged non-union', t.Annotated[int, Tagged('x')]),
         ('type[int]', t.Type[int]), ('ClassVar', t.ClassVar[int]), ('Final', t.Final[int]),
+        # forms the documentation does not list and the pinned tree refuses up front
+        ('NewType', _NewInt), ('PEP604 int|str', int | str), ('PEP604 list[int]|None', list[int] | None), ('stdlib dataclass', _StdDC),
+        ('type', type), ('NoReturn', t.NoReturn), ('Never', t.Never), ('Self', t.Self), ('LiteralString', t.LiteralString),
+        ('bare Optional', t.Optional), ('Ellipsis', ...), ('slice', slice), ('abc.Sized', collections.abc.Sized),
+        ('Protocol', t.Protocol), ('Generic', t.Generic), ('Required', t.Required[int]),
     ]
     d, ty = rng.choice(base)
     wrap = rng.choice(('bare', 'list', 'dict', 'optional', 'tuple', 'struct', 'field'))
+    if wrap == 'optional' and d.startswith('PEP604'):
+        wrap = 'list'       # typing.Optional[int | str] is normalised by typing itself into typing.Union[int, str, None], which is supported
     try:
         if wrap == 'list':
             return f"List[{d}]", t.List[ty]
